@@ -10,7 +10,7 @@ BIG = 1_000_000   # every symbolic volume / limit is bounded by 1e6 uL (the reco
 GEO = {
     "p1x1": ("plate", 1, 1), "p2x2": ("plate", 2, 2), "p2x3": ("plate", 2, 3), "p3x2": ("plate", 3, 2), "p8x2": ("plate", 8, 2),
     "p4x2": ("plate", 4, 2), "p3x12": ("plate", 3, 12),
-    "t1x1": ("trough", 1, 1), "t2x2": ("trough", 2, 2), "t3x2": ("trough", 3, 2), "t8x1": ("trough", 8, 1), "t4x2": ("trough", 4, 2),
+    "lt3x2": ("ltrough", 3, 2), "t1x1": ("trough", 1, 1), "t2x2": ("trough", 2, 2), "t3x2": ("trough", 3, 2), "t8x1": ("trough", 8, 1), "t4x2": ("trough", 4, 2),
 }
 
 
@@ -53,6 +53,13 @@ def make_labware(ctx, name, geo, *, filled=True, sym_limits=True, sym_volumes=Tr
     if kind == "plate":
         lab = ns.Labware(name, R, C, min_volume=0, max_volume=1000, initial_volumes=init)
         g = gwl.Geometry(name, R, C)
+    elif kind == "ltrough":
+        # a trough declared through the generic constructor (supported; emits a UserWarning)
+        import warnings
+        with warnings.catch_warnings():
+            warnings.simplefilter("ignore")
+            lab = ns.Labware(name, 1, C, min_volume=0, max_volume=1000, initial_volumes=init, virtual_rows=R)
+        g = gwl.Geometry(name, 1, C, vrows=R)
     else:
         lab = ns.Trough(name, R, C, min_volume=0, max_volume=1000, initial_volumes=init)
         g = gwl.Geometry(name, 1, C, vrows=R)
